@@ -37,14 +37,21 @@ def cases(tier, seed):
                 per[m["memtype"]] = per.get(m["memtype"], 0) + 1
     else:
         sel = allc[:420]
+    tight = tight_clock_configs(tier, seed)
     out = []
-    for k, m in enumerate(sel):
+    for k, m in enumerate(sel + tight):
         r = random.Random("C03/%d/%s/%d" % (seed, tier, k))
         mem = dict(m)
         cs = corecfg.rand_cs(r, refresh=True)
         cs["refresh_postponing"] = r.choice([1, 1, 2])
         nports = r.choice([1, 2, 2, 3])
         cls = CLASSES[k % len(CLASSES)]
+        if m.get("tight"):
+            # workload that exercises the timing whose rounding slack was minimised; explicit precharges in half of them
+            cls = {"tWR": "write-then-conflict", "tWTR": "write-then-conflict", "tRP": "row-conflict", "tRCD": "cold-rows",
+                   "tRAS": "cold-rows", "tRFC": "mixed"}[m["tight"]]
+            cs["with_auto_precharge"] = bool(k % 2) and m["tight"] not in ("tWR", "tWTR")     # explicit precharges for these
+            nports = r.choice([1, 2])
         nops = r.randint(70, 120) // max(1, nports // 2)
         wl = {"class": cls, "nops": nops, "master_mode": "fifo", "hot_rows": r.choice([2, 3]), "hot_cols": 2,
               "wr_frac": r.choice([0.4, 0.5, 0.7]), "gap_scale": 0.5}
@@ -52,10 +59,84 @@ def cases(tier, seed):
             wl["nops"] = nops * 2
         cfg = dict(mem=mem, cs=cs, nports=nports, workload=wl, seed="C03/%d/%d" % (seed, k),
                    trefi_override=r.randint(100, 170), max_cycles=40000, sweep=False)
-        cfg["name"] = "%03d-%s-%s-%s-%dMHz-%s" % (k, m["cls"], m["speedgrade"], m["rate"].replace(":", "to"),
-                                                  round(m["clk_freq"] / 1e6), cls)
+        cfg["name"] = "%03d-%s-%s-%s-%dMHz-%s%s" % (k, m["cls"], m["speedgrade"], m["rate"].replace(":", "to"),
+                                                    round(m["clk_freq"] / 1e6), cls, "-tight-" + m["tight"] if m.get("tight") else "")
         cfg["cost"] = corecfg.cost_of(mem, nports, 2000) * (4 if m["memtype"] == "DDR4" else 1)
         out.append(cfg)
+    return out
+
+
+def tight_clock_configs(tier, seed):
+    """Controller clocks at which the rounding of one datasheet timing X leaves (almost) no slack: with the library's phase
+    margin, cycles(X) = ceil(ns/T + 1 - 1/n); choosing ns/T = k - 1 + 1/n - eps makes the argument of the ceiling just
+    below an integer, so a gate that is one controller cycle (or one tCK) short in the controller shows on the bus
+    instead of hiding in the rounding."""
+    from fractions import Fraction
+    from .. import modlib
+    from litedram import modules as M
+    rng = random.Random("C03/tight/%d/%s" % (seed, tier))
+    out = []
+    per_type = 1 if tier == "quick" else 4
+    names = ("tWR", "tRP", "tRCD", "tRAS", "tWTR", "tRFC")
+    for mt in ("SDR", "DDR", "LPDDR", "DDR2", "DDR3", "DDR4"):
+        classes = modlib.module_classes((mt,))
+        rng.shuffle(classes)
+        for cls in classes[:per_type]:
+            sgs = modlib.speedgrades(cls)
+            sg = rng.choice(sgs)
+            for rate in modlib.RATES[mt]:
+                n = int(rate.split(":")[1])
+                clocks = modlib.dram_clocks_mhz(cls, sg)
+                hi, lo = max(clocks) * 1e6 / n, min(clocks) * 1e6 / n * 0.8
+                try:
+                    kw = {"speedgrade": sg} if sg else {}
+                    mod = cls(hi, rate, **kw)
+                except Exception:
+                    continue
+                xs = list(names)
+                rng.shuffle(xs)
+                if tier == "quick":
+                    # write recovery is always among them (it is the only timing the controller composes from three parts:
+                    # write latency + tWR + tCCD), plus one other
+                    xs = ["tWR"] + [x for x in xs if x != "tWR"][:1]
+                for x in xs:
+                    d = mod.get(x)
+                    if d is None or not d[1]:
+                        continue
+                    ns = Fraction(d[1]).limit_denominator(10 ** 6)
+                    cands = []
+                    for k in range(1, 400):
+                        f = (Fraction(k - 1) + Fraction(1, n) - Fraction(1, 50)) / ns * 10 ** 9      # ns/T = k-1+1/n-0.02
+                        if lo <= f <= hi:
+                            cands.append(float(f))
+                    if not cands:
+                        continue
+                    if x in ("tWR", "tWTR") and mt in ("DDR2", "DDR3", "DDR4"):
+                        # prefer clocks whose default CWL is not a multiple of the phase count (write latency in
+                        # controller cycles is then a rounded value)
+                        from litedram.common import get_default_cl_cwl
+                        odd = []
+                        for f_ in cands:
+                            try:
+                                if get_default_cl_cwl(mt, 1 / (n * f_))[1] % n:
+                                    odd.append(f_)
+                            except Exception:
+                                pass
+                        cands = odd or cands
+                    f = rng.choice(cands[-3:])            # among the fastest clocks of the usable range
+                    m = dict(kind="module", cls=cls.__name__, speedgrade=sg, rate=rate, clk_freq=f, memtype=mt, tight=x)
+                    if modlib.buildable(m):
+                        out.append(m)
+    if tier == "quick":
+        rng.shuffle(out)
+        keep, ddr4 = [], 0
+        for m in out:
+            if m["memtype"] == "DDR4":
+                ddr4 += 1
+                if ddr4 > 2:
+                    continue
+            keep.append(m)
+        out = keep[:18]
     return out
 
 
@@ -79,6 +160,7 @@ def run_case(cfg):
     nontrivial = ninst >= 20 and has_ras and has_wr
     m = cfg["mem"]
     sig = "|".join(str(x) for x in (m["cls"], m.get("speedgrade"), m["rate"], m["clk_freq"], cfg["workload"]["class"]))
+    st["tight_clock_for"] = m.get("tight")
     st["history_sample"] = (W_ if "W_" in dir() else W).trace_sample(tr)
     return dict(verdict="violated" if v else "held", violations=v[:12], stats=st, nontrivial=nontrivial, signature=sig)
 
